@@ -197,6 +197,7 @@ var (
 	flagRepo     = flag.String("repo", "", "scratch copy of the repository")
 	flagVerif    = flag.String("verif", "/verif", "verif directory")
 	flagDump     = flag.Int("dump", -1, "print the case of run index N and exit")
+	flagCrash    = flag.String("crashcase", "", "internal: execute the case of this file in this process and report survival")
 	flagTrace    = flag.String("tracelog", "", "determinism self-test: write one line per run (index, seed, hash of params+trace+verdict) to this file")
 	flagRuns     = flag.Int("runs", 0, "override the number of runs")
 )
@@ -263,6 +264,8 @@ func Main(p Property) {
 	switch {
 	case *flagReplay != "":
 		os.Exit(replayMain(p, env, *flagReplay))
+	case *flagCrash != "":
+		crashChild(p, env, *flagCrash)
 	case *flagDump >= 0:
 		c, _ := generateCase(p, env, *flagDump)
 		b, _ := json.MarshalIndent(c, "", " ")
@@ -346,6 +349,10 @@ func workerMain(p Property, env *Env) {
 			}
 			c, runRng := generateCase(p, env, index)
 			ch := Record(runRng)
+			// the run in progress is on disk: should the code under test take
+			// the whole process down (runtime fatal error: deadlock, stack
+			// exhaustion, concurrent map access), the parent knows which run it was
+			os.WriteFile(*flagOut+".current", []byte(strconv.Itoa(index)), 0o644)
 			out := safeExecute(p, env, c.Params, ch)
 			res.Evals++
 			if res.FirstIndex < 0 {
@@ -423,6 +430,106 @@ func workerMain(p Property, env *Env) {
 		fmt.Fprintln(Err, "HARNESS-ERROR:", err)
 		os.Exit(2)
 	}
+	os.Remove(*flagOut + ".current")
+}
+
+// killedClause is the clause of a run during which the code under test took
+// the whole process down.
+const killedClause = "process_killed_by_code_under_test"
+
+// crashChild executes one stored case in this process. It is only reached by
+// the end when the process survives.
+func crashChild(p Property, env *Env, path string) {
+	b, err := os.ReadFile(path)
+	if err != nil {
+		Harnessf("%v", err)
+	}
+	var c Case
+	if err := json.Unmarshal(b, &c); err != nil {
+		Harnessf("bad case file: %v", err)
+	}
+	env.Tier = c.Tier
+	env.Seed = c.BaseSeed
+	var ch *Choices
+	if c.Choices != nil {
+		ch = Replay(c.Choices, false)
+	} else {
+		// the decisions of a run that never finished were not recorded: they
+		// are drawn again from the run seed, exactly as the worker drew them
+		r := NewRand(c.RunSeed)
+		r.Fork("gen")
+		ch = Record(r.Fork("run"))
+	}
+	p.Execute(env, c.Params, ch)
+	fmt.Fprintln(Out, "CRASHCASE-SURVIVED")
+	os.Exit(0)
+}
+
+// probeCrash runs the case of `path` in a child process of its own and tells
+// whether the Go runtime killed it while code of the repository was on a stack.
+func probeCrash(env *Env, path string) (killed bool, detail string) {
+	args := []string{"-crashcase", path}
+	flag.Visit(func(f *flag.Flag) {
+		switch f.Name {
+		case "worker", "of", "out", "workers", "replay", "crashcase", "seed", "tier", "evidence":
+		default:
+			args = append(args, "-"+f.Name+"="+f.Value.String())
+		}
+	})
+	if !flagSet("scratch") && env.Scratch != "" {
+		args = append(args, "-scratch="+env.Scratch)
+	}
+	cmd := exec.Command(os.Args[0], args...)
+	var buf strings.Builder
+	cmd.Stdout = &buf
+	cmd.Stderr = &buf
+	cmd.Env = append(os.Environ(), "GOMAXPROCS=2")
+	done := make(chan error, 1)
+	if err := cmd.Start(); err != nil {
+		Harnessf("start crash probe: %v", err)
+	}
+	go func() { done <- cmd.Wait() }()
+	var err error
+	select {
+	case err = <-done:
+	case <-time.After(10 * time.Minute):
+		cmd.Process.Kill()
+		<-done
+		return false, "the crash probe did not end within ten minutes"
+	}
+	text := buf.String()
+	if err == nil || strings.Contains(text, "CRASHCASE-SURVIVED") || strings.Contains(text, "HARNESS-ERROR") {
+		return false, text
+	}
+	i := strings.Index(text, "fatal error: ")
+	if i < 0 || !strings.Contains(text[i:], "github.com/benoitkugler/gomacro/") {
+		return false, text
+	}
+	lines := strings.Split(text[i:], "\n")
+	if len(lines) > 60 {
+		lines = append(lines[:60], "...")
+	}
+	return true, strings.Join(lines, "\n")
+}
+
+// crashFinding turns the run a dead worker was executing into a finding, when
+// executing it alone kills the process again.
+func crashFinding(p Property, env *Env, index int) *Found {
+	c, _ := generateCase(p, env, index)
+	v := Violation{Property: p.ID(), Clause: killedClause}
+	c.Expect = &v
+	path := WriteReplay(env, c)
+	killed, detail := probeCrash(env, path)
+	if !killed {
+		os.Remove(path)
+		return nil
+	}
+	first, _, _ := strings.Cut(detail, "\n")
+	v.Signature = first
+	v.Detail = "executing this run alone in a fresh process, the Go runtime killed the process while code of the repository was running:\n" + detail
+	c.Expect = &v
+	path = WriteReplay(env, c)
+	return &Found{V: v, Case: c, File: path}
 }
 
 func parentMain(p Property, env *Env) int {
@@ -485,11 +592,28 @@ func parentMain(p Property, env *Env) int {
 	named := map[string]map[uint64]bool{}
 	var found []Found
 	harness := ""
+	// workers that died without a result: the run each was executing is probed
+	// alone in a fresh process. A death that the probe reproduces is a finding;
+	// the others (the process state left by an earlier run of that worker was
+	// part of the cause) make the batch unusable - unless a reproduced finding
+	// already makes its verdict a violation, which incompleteness cannot change
+	crashConfirmed := false
+	var unexplained []string
 	for _, pr := range procs {
 		err := pr.cmd.Wait()
 		b, rerr := os.ReadFile(pr.out)
 		if rerr != nil {
-			harness = fmt.Sprintf("worker produced no result (%v, %v)", err, rerr)
+			if cur, cerr := os.ReadFile(pr.out + ".current"); cerr == nil {
+				if index, aerr := strconv.Atoi(strings.TrimSpace(string(cur))); aerr == nil {
+					if f := crashFinding(p, env, index); f != nil {
+						found = append(found, *f)
+						crashConfirmed = true
+						fmt.Fprintf(Err, "--- %s violation, clause %s\n%s\n", p.ID(), f.V.Clause, f.V.Detail)
+						continue
+					}
+				}
+			}
+			unexplained = append(unexplained, fmt.Sprintf("worker produced no result (%v, %v)", err, rerr))
 			continue
 		}
 		var r workerResult
@@ -529,6 +653,13 @@ func parentMain(p Property, env *Env) int {
 		}
 		if r.LastIndex > agg.LastIndex {
 			agg.LastIndex = r.LastIndex
+		}
+	}
+	for _, u := range unexplained {
+		if crashConfirmed {
+			fmt.Fprintln(Err, "note:", u, "- not probed further: a reproduced process death is already reported")
+		} else if harness == "" {
+			harness = u
 		}
 	}
 	if harness != "" {
@@ -689,6 +820,17 @@ func replayMain(p Property, env *Env, path string) int {
 	}
 	env.Tier = c.Tier
 	env.Seed = c.BaseSeed
+	if c.Expect != nil && c.Expect.Clause == killedClause {
+		// this case kills the process that executes it: it is replayed in a child
+		killed, detail := probeCrash(env, path)
+		if !killed {
+			fmt.Fprintf(Out, "[%s] replay %s: the process survives (the tree under test no longer fails this case)\n", p.ID(), path)
+			return 0
+		}
+		fmt.Fprintf(Out, "[%s] replay reproduced: clause=%s\n%s\n", p.ID(), killedClause, detail)
+		fmt.Fprintf(Out, "VIOLATION property=%s replay=%s\n", p.ID(), path)
+		return 1
+	}
 	ch := Replay(c.Choices, true)
 	out := p.Execute(env, c.Params, ch)
 	if out.Violation == nil {
